@@ -288,7 +288,7 @@ PROPS["C16"] = {
             "accepts it, permissive must accept it and both dumps (tree, metadata, bytes) must be identical. part B: a valid base "
             "(library-written, synthesised foreign layout, synthesised with 1-2 DIFAT sectors, library-written with a DIFAT sector) with "
             "1-4 of the 18 documented deviations injected at a random applicable place with varied values (whole / partial zero padding, unmarked cells holding special markers, zero or stale sector numbers, root names with forbidden characters; DIFAT-related ones steered into pairs): "
-            "permissive open must give exactly the undamaged file's dump and strict open must reject; two images of three are opened with a max_buffer_size, the two builder calls in either order. non-trivial = part A input accepted "
+            "permissive open must give exactly the undamaged file's dump and strict open must reject; two images of three are opened with a max_buffer_size, the two builder calls in either order. One image in twelve is also written to a scratch file and opened through the path-based entrances (cfb::open / open_rw, OpenOptions with and without strict(), open / open_rw): verdict and content must equal those of open_with on the same bytes. non-trivial = part A input accepted "
             "by strict, or part B input judged; distinct = FNV-64 of the input bytes",
     "assumptions": COMMON_ASSUMPTIONS + [
         "header first_difat_sector = FREESECT is accepted by BOTH modes (header.rs documents it without tying it to validation), so it is not in the must-reject list",
@@ -298,7 +298,7 @@ PROPS["C16"] = {
     "quick": {"budget_s": 22},
     "thorough": {"budget_s": 300},
     "floors": {
-        "quick": {"partA.strict_accepted_and_compared": 800, "partA.strict_accepted_corrupted_input": 300, "partB.singles_checked": 3000, "partB.combinations_checked": 2500,
+        "quick": {"path_based.Strict.accepted": 30, "path_based.Strict.rejected": 300, "path_based.Permissive.accepted": 300, "partA.strict_accepted_and_compared": 800, "partA.strict_accepted_corrupted_input": 300, "partB.singles_checked": 3000, "partB.combinations_checked": 2500,
                   "partB.zero_padded_fat.single": 150, "partB.zero_padded_difat.single": 60, "partB.fat_sector_unmarked.single": 150, "partB.difat_sector_unmarked.single": 60,
                   "partB.difat_chain_ends_free.single": 60, "partB.adjacent_red_nodes.single": 100, "partB.name_not_terminated.single": 100, "partB.wrong_root_name.single": 100,
                   "partB.stream_clsid.single": 100, "partB.stream_ctime.single": 100, "partB.stream_mtime.single": 100, "partB.storage_start.single": 80, "partB.storage_size.single": 80,
